@@ -154,7 +154,7 @@ Tables == {"local", "peers"}
 \* the columns of the two tables and their CQL types (Cassandra's system schema); dse_version
 \* exists only in front of a DSE backend
 Type(col) == CASE col \in {"rpc_address", "peer"}        -> "inet"
-               [] col = "schema_version" -> "uuid" [] col = "host_id" -> "timeuuid"
+               [] col \in {"schema_version", "host_id"}   -> "uuid"
                [] col = "tokens"                          -> "set<varchar>"
                [] OTHER                                   -> "varchar"
 LocalCols(dse) == <<"key", "rpc_address", "data_center">> \o (IF dse THEN <<"dse_version">> ELSE <<>>) \o
